@@ -16,6 +16,10 @@ class Untranslatable(Exception):
     pass
 
 
+# names of the symbolic side of the transmission line model -> names of the numeric side
+RENAME = {}
+
+
 def lit(n):
     return f"(.num {n})"
 
@@ -33,7 +37,8 @@ def from_float(x):
     return rat(int(fr.p), int(fr.q))
 
 
-FUN1 = {"sqrt": "sqrt", "tanh": "tanh", "coth": "coth", "cosh": "cosh", "sinh": "sinh"}
+FUN1 = {"sqrt": "sqrt", "tanh": "tanh", "coth": "coth", "cosh": "cosh", "sinh": "sinh",
+        "sympy_sqrt": "sqrt", "sympy_tanh": "tanh", "sympy_coth": "coth", "sympy_cosh": "cosh", "sympy_sinh": "sinh"}
 
 
 def py2e(node, env):
@@ -67,7 +72,13 @@ def py2e(node, env):
         if isinstance(v, float):
             return from_float(v)
         raise Untranslatable("constant " + repr(v))
+    if isinstance(node, ast.Attribute) and isinstance(node.value, ast.Name) and node.attr in ("expr", "impedances"):
+        # `x1.expr` / `x1.impedances` of a Subcircuit record: the sub-circuit's impedance
+        name = RENAME.get(node.value.id, node.value.id)
+        return f'(.var "{name}")'
     if isinstance(node, ast.Name):
+        if node.id in RENAME:
+            return f'(.var "{RENAME[node.id]}")'
         if node.id in env:
             return env[node.id]
         if node.id == "pi":
@@ -131,6 +142,54 @@ def sym2e(e):
     raise Untranslatable("sympy node " + fn)
 
 
+def translate_tlm(out, names_out, untranslatable):
+    """General transmission line model: the branch formulas `_eqNN` (numeric) and the return expressions of
+    `_sympy` (symbolic), plus the shared auxiliaries lm, cs, ct, s."""
+    global RENAME
+    from pyimpspec.circuit.transmission_line_model import TransmissionLineModel as T
+    eqs = ["_eq8", "_eq16", "_eq17", "_eq18", "_eq18_variant", "_eq19", "_eq20"]
+    try:
+        RENAME = {}
+        for m in eqs:
+            out.append(f"/-- `TransmissionLineModel.{m}` -/\ndef Tlm{m}_impl : E := {translate_function(getattr(T, m))}")
+        # auxiliaries of `_impedance`
+        src = textwrap.dedent(inspect.getsource(T._impedance))
+        fn = ast.parse(src).body[0]
+        aux = {}
+        for st in ast.walk(fn):
+            if isinstance(st, ast.AnnAssign) and isinstance(st.target, ast.Name) and st.target.id in ("lm", "cs", "ct", "s") and st.value is not None:
+                RENAME = {"ze": "ze", "x1": "x1", "x2": "x2"}
+                aux[st.target.id] = py2e(st.value, {})
+        for k in ("lm", "cs", "ct", "s"):
+            if k not in aux:
+                raise Untranslatable(f"auxiliary {k} of Tlm._impedance not found")
+            out.append(f"def Tlm_{k}_impl : E := {aux[k]}")
+        # symbolic side
+        src = textwrap.dedent(inspect.getsource(T._sympy))
+        fn = ast.parse(src).body[0]
+        RENAME = {"x": "X", "z": "Z", "Cs": "cs", "Ct": "ct", "S": "s"}
+        auxs = {}
+        for st in fn.body:
+            if isinstance(st, ast.Assign) and len(st.targets) == 1 and isinstance(st.targets[0], ast.Name) and st.targets[0].id in ("lm", "Cs", "Ct", "S"):
+                auxs[RENAME.get(st.targets[0].id, st.targets[0].id)] = py2e(st.value, {})
+        for k in ("lm", "cs", "ct", "s"):
+            if k not in auxs:
+                raise Untranslatable(f"auxiliary {k} of Tlm._sympy not found")
+            out.append(f"def Tlm_{k}_sym : E := {auxs[k]}")
+        rets = [n for n in ast.walk(fn) if isinstance(n, ast.Return)]
+        rets.sort(key=lambda n: n.lineno)
+        order = ["_eq20", "_eq8", "_eq18_variant", "_eq18", "_eq17", "_eq19", "_eq16"]
+        if len(rets) != len(order):
+            raise Untranslatable(f"Tlm._sympy has {len(rets)} return statements, expected {len(order)}")
+        for m, r in zip(order, rets):
+            out.append(f"/-- return expression of `TransmissionLineModel._sympy` paired with `{m}` -/\ndef Tlm{m}_sym : E := {py2e(r.value, {})}")
+        names_out.extend(eqs)
+    except Untranslatable as ex:
+        untranslatable.append({"what": "TransmissionLineModel", "detail": str(ex)})
+    finally:
+        RENAME = {}
+
+
 def generate(gen_dir, untranslatable):
     from sympy import sympify
     from pyimpspec.circuit.registry import get_elements
@@ -152,7 +211,10 @@ def generate(gen_dir, untranslatable):
         out.append(f"/-- `{cls.__name__}._impedance` -/\ndef {sym}_impl : E := {impl}")
         out.append(f"/-- sympify of the equation string `{cls._equation}` -/\ndef {sym}_eqn : E := {eqn}")
         names.append(sym)
+    tlm_names = []
+    translate_tlm(out, tlm_names, untranslatable)
     out.append("")
+    out.append("def tlmBranches : List String := [" + ", ".join(f'"{n}"' for n in tlm_names) + "]")
     out.append("/-- the non-container element classes currently registered -/")
     out.append("def names : List String := [" + ", ".join(f'"{n}"' for n in names) + "]")
     out.append("def impls : List (String × E) := [" + ", ".join(f'("{n}", {n}_impl)' for n in names) + "]")
